@@ -436,7 +436,7 @@ class Inliner:
         return None
 
     # -------------------------------------------------------------------------------------------- inlining
-    def _instantiate(self, h: Helper, binding: Dict[str, ast.AST], caller=None) -> Tuple[List[ast.stmt], Dict[str, ast.AST], List[ast.stmt]]:
+    def _instantiate(self, h: Helper, binding: Dict[str, ast.AST], caller=None, keep=()) -> Tuple[List[ast.stmt], Dict[str, ast.AST], List[ast.stmt]]:
         """(prelude assignments, name mapping, renamed body); locals of the helper keep their names unless the caller uses
         the same name (extracted code usually keeps the names it had before the extraction)"""
         fn = h.fn
@@ -453,6 +453,8 @@ class Inliner:
                 prelude.append(ast.Assign(targets=[ast.Name(id=nm, ctx=ast.Store())], value=copy.deepcopy(a), lineno=getattr(fn, "lineno", 0)))
                 mapping[p] = nm
         for nm in sorted(assigned - set(binding)):
+            if nm in keep:
+                continue        # the helper's local *is* the variable the call assigns to
             if caller_names is None or nm in caller_names:
                 mapping[nm] = _fresh(nm)
         body = [] if isinstance(fn, ast.Lambda) else [_Rename(mapping).visit(copy.deepcopy(s)) for s in fn.body]
@@ -665,7 +667,11 @@ class Inliner:
                             not (mode != "stmt" and ex._value_of(h, call, recv) is not None):
                         # arguments may themselves contain inlinable value helpers
                         b = {p: ExprInl().visit(copy.deepcopy(a)) for p, a in b.items()}
-                        prelude, mapping, body = ex._instantiate(h, b, fn)
+                        keep_ = ()
+                        if mode == "assign" and len(st.targets) == 1 and isinstance(st.targets[0], ast.Name) and st.targets[0].id not in b and \
+                                not any(isinstance(n_, ast.Name) and n_.id == st.targets[0].id for a_ in b.values() for n_ in ast.walk(a_)):
+                            keep_ = (st.targets[0].id,)
+                        prelude, mapping, body = ex._instantiate(h, b, fn, keep_)
                         if body and isinstance(body[0], ast.Expr) and isinstance(body[0].value, ast.Constant) and isinstance(body[0].value.value, str):
                             body = body[1:]
                         if mode == "stmt":
@@ -680,7 +686,11 @@ class Inliner:
                         elif mode == "assign":
                             tg = st.targets
                             body2 = body if _always_returns(body) else body + [ast.Return(value=None)]
-                            new = _eliminate_returns(body2, lambda v: [ast.Assign(targets=copy.deepcopy(tg), value=(v if v is not None else ast.Constant(None)), lineno=st.lineno)])
+                            def _ret_assign(v, tg=tg):
+                                if len(tg) == 1 and isinstance(tg[0], ast.Name) and isinstance(v, ast.Name) and v.id == tg[0].id:
+                                    return []       # t = t
+                                return [ast.Assign(targets=copy.deepcopy(tg), value=(v if v is not None else ast.Constant(None)), lineno=st.lineno)]
+                            new = _eliminate_returns(body2, _ret_assign)
                         else:
                             body2 = body if _always_returns(body) else body + [ast.Return(value=None)]
                             new = _eliminate_returns(body2, lambda v: [ast.Return(value=v)])
